@@ -36,6 +36,8 @@ package dns
 //@   ensures len: ret2 == nil ==> 12 <= len(ret0) && len(ret0) <= len(msg)
 //@   loop * invariant 12 <= off && off <= len(msg)
 //@   loop 2 invariant 0 <= tsigoff && tsigoff <= len(msg) && (i > 0 ==> 12 <= tsigoff) && 0 <= i
+//@   callsite "PutUint16" arcount: arg2 == (callres("Uint16") + 65535) % 65536
+//@   assert at "arcount := binary.BigEndian.Uint16(msg[10:])" found: hdr(extra).Rrtype == 250 && tsigoff <= off
 //@   assume at "rr = extra.(*TSIG)" typetable: isptrtype(extra, TSIG)
 
 // verification order (RFC 8945 5.2): MAC first, then the time window; success implies both
@@ -71,6 +73,11 @@ package dns
 //@   requires m != nil && provider != nil
 //@   may-panic
 //@   exit arcount: ret2 == nil ==> ret0[10] * 256 + ret0[11] == (len(m.Extra) + 1) % 65536
+//@   exit mac: ret2 == nil ==> ret1 == t.MAC
+//@   callsite "Generate" signed: same(arg0, buf) && arg1 == rr
+//@   callsite "tsigBuffer" digest: same(arg0, mbuf) && arg1 == rr && arg2 == requestMAC && arg3 == timersOnly
+//@   assert at "tbuf := make([]byte, Len(t))" outrec: t.Hdr.Name == rr.Hdr.Name && t.Hdr.Rrtype == rr.Hdr.Rrtype && t.Hdr.Class == rr.Hdr.Class && t.Hdr.Ttl == rr.Hdr.Ttl && t.Algorithm == rr.Algorithm && t.Fudge == rr.Fudge && t.OrigId == rr.OrigId && t.Error == rr.Error && t.OtherLen == rr.OtherLen && t.OtherData == rr.OtherData
+//@   assert at "tbuf := make([]byte, Len(t))" outmac: (rr.Error != 17 && rr.Error != 16) ? (t.TimeSigned == rr.TimeSigned && t.MACSize == (len(t.MAC) / 2) % 65536) : (t.TimeSigned == 0 && len(t.MAC) == 0 && t.MACSize == 0)
 //@   exit shrunk: ret2 == nil ==> len(m.Extra) == old(len(m.Extra)) - 1
 
 // RFC 8945 4.3: the digest components, field by field, uncompressed and starting at offset 0
